@@ -6,7 +6,7 @@ log = sys.argv[1] if len(sys.argv) > 1 else '/tmp/seedcheck_full.log'
 rows = []
 cur = None
 for line in open(log, errors='replace'):
-    m = re.match(r'^(C\d+-[mnpq]\d+): (.*)$', line.rstrip())
+    m = re.match(r'^(C\d+-[a-z]\d+): (.*)$', line.rstrip())
     if m:
         cur = {'seed': m.group(1), 'hits': m.group(2), 'rules': []}
         rows.append(cur)
